@@ -9,6 +9,7 @@ K1 = "Coq proofs about a hand-written Gallina model + correspondence check (mode
 CHECKS = {
  'C01': (REGION, "Theorem C01_region (all inputs, outputs, every real point): a pair accepted by the extracted checker satisfies the property at every point farther than 2 from the input edges; per-run certification of the implementation's outputs on generated + corpus inputs.", "4.1", "coq-region"),
  'C02': (REGION, "Theorem C02_canonical: accepted outputs have winding 0 or s at every real point farther than 2 from their edges; corollaries for the three readings and re-union; syntactic half decided directly on every output.", "4.2", "coq-region"),
+ 'C03': (K1 + "; hostile-input exploration of every exported entry point for the unmodelled engines", "Totality theorems for the modelled leaf routines (C03_trim_total, C03_minkowski_total, C03_pip_total, C03_precision_total) for all inputs; for the sweep, the offsetter and the rectangle clipper totality is observed under recover/time-limit/success-flag on a hostile stream covering all API groups and enum values (PARTIAL).", "4.3", "coq-k1"),
  'C06': (REGION, "Theorem C06_rect: accepted (input, output, rectangle) triples have output winding = input winding inside and 0 outside the rectangle at every real point away from the band; vertex bound, inside-unchanged, outside-vanishes and the driver decided directly.", "4.6", "coq-region"),
  'C08': (K1 + "; " + REGION, "Theorems C08_total/C08_count/C08_quads_closed/C08_quads_positive about the faithful model of minkowskiInternal (all inputs); C08_region: accepted results equal the union of the swept parallelograms at every real point farther than 2 from every parallelogram edge; canonical form and sum(A,B)=sum(B,A) certified likewise. PARTIAL near interior parallelogram edges (DESIGN 4.8).", "4.8", "coq-region"),
  'C14': (K1, "Theorems C14_* for all inputs within 2^29: Area64/IsPositive64 exact when the doubled area is below 2^63 (and machine-checked refutation beyond), GetBounds64 exact, 128-bit product exact, isCollinear exact except when a coordinate difference is 1 (refutations proved), CrossProduct sign exact, PointInPolygon total and equal to the exact even-odd specification on an exhaustively enumerated scope (partial beyond, tied by correspondence).", "4.14", "coq-k1"),
